@@ -376,6 +376,8 @@ def validator_input(case_id, rr, ce):
     for key, outs in ce["outcomes"].items():
         for o in outs:
             out.append("pend %s %s" % (key, o))
+    for pl in getattr(rr, "progress", []):
+        out.append("progress %s %s %s %s" % tuple(pl))
     for rel, what in sorted(rr.after.items()):
         p = base + rel
         if what[0] == "dir":
